@@ -546,6 +546,23 @@ def check_C01(ctx):
         if d_:
             ctx.mismatch("Impl and model differ on %s (large repeated groups)" % ",".join(d_), case=c, impl={k: a[k] for k in d_}, model={k: b[k] for k in d_})
     ctx.stream("large repeated groups, judged by construction", len(big), compared_with_the_model=n_bm)
+    # long names that differ only in the middle and clusters of ten letters, under specs that backtrack after input was
+    # consumed (the buckets of the memory of failed configurations are found through a hash of first and last bytes)
+    ldecls = [gen.mkopt("custom", "abcdXefgh", custom=dict(gen.CUSTOM_FLAG)), gen.mkopt("custom", "abcdYefgh", custom=dict(gen.CUSTOM_FLAG)),
+              gen.mkopt("custom", "c", custom=dict(gen.CUSTOM_FLAG)), gen.mkopt("custom", "d", custom=dict(gen.CUSTOM_FLAG)),
+              gen.mkopt("custom", "a", custom=dict(gen.CUSTOM_FLAG)), gen.mkopt("custom", "b", custom=dict(gen.CUSTOM_FLAG))]
+    L1, L2 = "--abcdXefgh", "--abcdYefgh"
+    ltoks = [L1, L2, "-c", "-d", "-aaaaabaaaa", "-aaaaaaaaaa", "-a", "-b"]
+    lcases = []
+    for sp in ("(%s | %s) -d [%s] [-c]" % (L2, L1, L2), "(%s | %s) %s..." % (L1, L2, L1), "[%s] [%s] -c -d %s" % (L1, L2, L1),
+               "(%s | %s | -c)... -d" % (L1, L2), "[%s | %s]... -c %s" % (L1, L2, L2), "(-a | -b) -a...", "(-a | -b)... -c", "[-a]... -b -a...",
+               "(%s -c | %s) -d %s" % (L1, L2, L1)):
+        for n in (1, 2, 3, 4):
+            for t in itertools.product(ltoks, repeat=n):
+                lcases.append({"op": "run", "env": {}, "version": None, "root": gen.mkcmd("app", decls=copy.deepcopy(ldecls), spec=sp, policy=0), "argv": list(t)})
+    if len(lcases) > ctx.scale(5000, 40000):
+        lcases = ctx.rng.sample(lcases, ctx.scale(5000, 40000))
+    blank += lcases
     blank += dd_env_cases(ctx, ctx.scale(6000, 60000))
     number(blank, start=len(cases) + len(sc))
     res3 = correspond(ctx, blank, fields, "specs of blanks and padded specs")
@@ -715,12 +732,13 @@ def check_C03(ctx):
                 many.append({"op": "run", "env": {}, "version": None, "root": gen.mkcmd("app", decls=copy.deepcopy(cd), spec=sp, policy=0), "argv": line + tail})
     # (5) many DIFFERENT options on a rejected line, each a separate atom of the spec: the configurations (state, what is left
     # of the block of adjacent options) are as many as the subsets of the options given -- the memory of D10 cannot help.
-    # Up to 18-20 different options the library answers within the deadline; beyond that it does not: known finding K3.
+    # Up to 18-20 different options the library answers within the deadline and the heap limit; 24 need a minute and 7 GB:
+    # known finding K3.
     letters5 = "abcdefgijklmnopqrstuvwxy"
-    for n in (10, 14, 18, 22):
+    for n in (10, 14, 18, 24):
         kd5 = [gen.mkopt("bool", ch, **{"def": ["false"]}) for ch in letters5[:n]] + [gen.mkarg("strings", "X")]
         for sp, tail in ((" ".join("[-%s]" % ch for ch in letters5[:n]), ["-Z"]), (" ".join("[-%s]" % ch for ch in letters5[:n]) + " X", ["x", "y"])):
-            if n == 22 and tail != ["-Z"]:
+            if n == 24 and tail != ["-Z"]:
                 continue
             many.append({"op": "run", "env": {}, "version": None, "root": gen.mkcmd("app", decls=copy.deepcopy(kd5), spec=sp, policy=0),
                          "argv": ["-" + ch for ch in letters5[:n]] + tail, "_distinct": n})
@@ -740,6 +758,15 @@ def check_C03(ctx):
     for sp in ("[-f] SRC... DST", "(SRC... DST) | (SRC... -f)"):
         many.append({"op": "run", "env": {}, "version": None, "root": gen.mkcmd("app", decls=copy.deepcopy(ld2), spec=sp, policy=0),
                      "argv": ["/some/where/deep/in/a/tree/of/directories/" + "n" * 50 + "%05d" % i_ for i_ in range(8000)] + ["-f"]})
+    # (6b) ambiguous repetitions of POSITIONALS on long rejected lines, also behind a `--` (where no option is matched any more,
+    # but the same remaining arguments are still reached through different groupings): the memory of failed configurations
+    # must cover them too
+    amb_decl = [gen.mkarg("strings", "A")]
+    for sp in ("(A A | A A A A)...", "(A | A A)... A A", "(A A A | A A)..."):
+        for n_ in (61, 121, 161, 301):
+            for lead in ([], ["--"]):
+                many.append({"op": "run", "env": {}, "version": None, "root": gen.mkcmd("app", decls=copy.deepcopy(amb_decl), spec=sp, policy=0),
+                             "argv": lead + ["x"] * n_})
     # (7) big specs: the parser and the shortcut elimination recurse (depth = nesting depth, resp. number of states) and the
     # elimination is cubic in the number of optional atoms in a row. Up to a nesting of 2000, 20000 atoms in a row and 400
     # optional atoms the library must answer within the deadline; a spec of a hundred thousand unclosed parentheses exhausts
